@@ -66,7 +66,9 @@ func (opts *CompileOptions) Compile(source string) (string, error) {
 				mode:   letExprMode,
 			}
 			sb := new(strings.Builder)
-			if err := writeExpressionMaybeParen(ctx, sb, stmt.X); err != nil {
+			// A signed value is parenthesized like any other compound value
+			// so that it stays one operand wherever it is substituted.
+			if err := writeSignOperand(ctx, sb, stmt.X); err != nil {
 				return "", err
 			}
 			scope[stmt.Name.Name] = sb.String()
